@@ -17,7 +17,7 @@ PROP = dict(
          "if/else, blocks+shadowing, let/var, assignment forms, while/break/continue, println), F1 (+tuples, structs and variants incl. void components in any position with refutable multi-arm matches over them, "
          "enums, match, arrays with aliasing, for, strings incl. all six comparison operators on designed pairs), F2 (+functions incl. void-typed parameters in any position, recursion, return, option/result, ?/!), "
          "F3 (+lambdas, nested lambdas, captures, reassignment before/after creation, top-level functions and struct constructors as first-class values (Sem `fnref`/`mkref`), arrays of functions called directly `fs[i](x)`); all tiers from F1: `_` in let annotations (`array<_>`, `(_, string)`, `_ -> int`), void struct fields as assignment targets with effectful object expressions; from F2: a function with 32..37 parameters called with operands pending; "
-         "two thirds of the programs have break/continue while operands of the enclosing loop are pending (blocks `{ if c { break } else { }; e }` as operands of operators, calls, tuple/array/struct components, `..` chains, match scrutinees/arms, compound right-hand sides; repaired D21); quick: 110+90+90+90 programs "
+         "two thirds of the programs MAY have break/continue while operands of the enclosing loop are pending (the generator option is on for them; in the quick tier about 70 of the 380 programs actually contain such a jump: blocks `{ if c { break } else { }; e }` as operands of operators, calls, tuple/array/struct components, `..` chains, match scrutinees/arms, compound right-hand sides; repaired D21); quick: 110+90+90+90 programs "
          "(4-12 statements, node budget 40-88), thorough: 4x2500 (budget up to 200); each compiled and run by the real "
          "compiler+VM under step budgets {1000},{1},{2,3,7},{100}; output + final value (Runtime::top for int/bool/"
          "string) + error kind compared with Abra.Sem on the generator's own AST; every F0 program additionally: real "
